@@ -61,6 +61,8 @@ class Reject(Exception):
 # ----------------------------------------------------------------------------------------
 def _const(c):
     if c[0] == "s":
+        if len(c) > 2 and c[2] == "np":
+            return np.float64(c[1])           # numpy scalar (a float subclass)
         return int(c[1]) if (len(c) > 2 and c[2] == "int") else float(c[1])
     arr = np.array(c[1], dtype=float)
     if len(c) > 2 and c[2] == "int":
@@ -594,10 +596,10 @@ class Gen:
                     pc = ["s", p] if r.random() < 0.6 else ["a", [r.choice([0.5, 1.5, -0.5, 2.0]) for _ in range(n)]]
                     return ["powk", self.positive(a) if r.random() < 0.8 else a, pc]
                 if r.random() < 0.6:
-                    p = r.choice([2, 3, 1, 2, -1, -2, 0])
-                    pc = ["s", p, "int"] if r.random() < 0.5 else ["s", float(p)]
+                    p = r.choice([2, 3, 1, 2, -1, -2, 0, 3, 4, 5, 4, 5, 6, -3])
+                    pc = r.choice([["s", p, "int"], ["s", float(p)], ["s", float(p), "np"]])
                 else:
-                    pc = ["a", [r.choice([1, 2, 3, -1, -2, 0]) for _ in range(n)]]
+                    pc = ["a", [r.choice([1, 2, 3, 4, 5, -1, -2, 0]) for _ in range(n)]]
                     if r.random() < 0.3:
                         pc.append("int")
                 if r.random() < 0.6:
@@ -618,7 +620,11 @@ class Gen:
                 return [op, self.const(n, allow_int=False), a]
             if op == "maxkr":
                 return [op, a, self.const(n, allow_int=False)]
-            return [op, a, self.const(n)]
+            c = self.const(n)
+            if op in ("addk", "subk", "mulk", "divk") and c[0] == "s" and len(c) == 2 and r.random() < 0.3:
+                if not (op == "divk" and c[1] == 0):
+                    c = ["s", c[1], "np"]
+            return [op, a, c]
         if x < 0.57:
             return ["neg", sub()]
         if x < 0.65 and self.nmat < 3:
@@ -891,6 +897,13 @@ DIRECTED = [
      "tree": ["div", ["raddk", ["var", 0], ["a", [0.5, 0.25]]], ["rmulk", ["var", 1], ["s", 2, "int"]]]},
     {"kind": "rat", "vars": [[2.0, -0.5], [1.0, 4.0]],
      "tree": ["rdiv", ["var", 0], ["powk", ["var", 1], ["s", -2.0]]]},
+    # scalar integer-valued exponents 3, 4, 5 as int, float and numpy scalar; Ad ** Ad
+    {"kind": "rat", "vars": [[2.0, -0.5, 1.5]], "tree": ["powk", ["var", 0], ["s", 3, "int"]]},
+    {"kind": "rat", "vars": [[2.0, -0.5, 1.5]], "tree": ["powk", ["var", 0], ["s", 4.0]]},
+    {"kind": "rat", "vars": [[2.0, -0.5, 1.5]], "tree": ["powk", ["var", 0], ["s", 5.0, "np"]]},
+    {"kind": "rat", "vars": [[2.0, -0.5, 1.5], [0.25, 3.0, -2.0]],
+     "tree": ["mul", ["powk", ["add", ["var", 0], ["var", 1]], ["s", 3.0]], ["powk", ["var", 1], ["s", 4, "int"]]]},
+    {"kind": "trans", "vars": [[2.0, 0.5, 1.5], [3.0, 4.0, 5.0]], "tree": ["pow", ["var", 0], ["var", 1]]},
     # integer powers incl. 0, 1, negative, array exponents
     {"kind": "rat", "vars": [[2.0, -0.5, 1.5]],
      "tree": ["powk", ["var", 0], ["a", [0, 1, -3], "int"]]},
